@@ -93,6 +93,11 @@ func c06Domain(r *rand.Rand, name string, isInt bool, na string, withNA bool) []
 		}
 	}
 	if isInt && r.Intn(4) == 0 {
+		// large identifiers that differ in their last digit only (distinct integers, equal once rounded
+		// to single precision)
+		d = append(d, 100000001, 100000002, 100000003)
+	}
+	if isInt && r.Intn(4) == 0 {
 		// numeric values beyond the int64 range (20-digit identifiers): read back as floats
 		d = append(d, 1e19, 2e19)
 		if r.Intn(2) == 0 {
